@@ -24,6 +24,8 @@ func init() {
 			"correctness of net.IPNet.Contains and ipaddr cursors, ipfamily.ForService.",
 		Run: runC02,
 		Mutants: []Mutant{
+			{Name: "prefer-dual-stack-accepts-any-family", File: "controller/service.go",
+				Old: "\tif clusterIPsIPFamily == ipfamily.DualStack && familyPolicy == v1.IPFamilyPolicyPreferDualStack {\n\t\treturn false", New: "\tif familyPolicy == v1.IPFamilyPolicyPreferDualStack {\n\t\treturn false", Expect: "FAMILY-KEPT"},
 			{Name: "same-length-prefixes-never-contained", File: "internal/config/config.go",
 				Old: "\tif ol == il && outer.IP.Equal(inner.IP) {\n\t\treturn true\n\t}\n", New: "", Expect: "CIDR-CONTAINS"},
 			{Name: "later-pool-replaces-candidate", File: "internal/allocator/allocator.go",
@@ -66,6 +68,7 @@ func init() {
 const allocA = "(*internal/allocator.Allocator)."
 
 func runC02(p *chk.Prog, r *chk.Report) {
+	c02FamilyChanged(p, r)
 	c02FreeIP(p, r)
 	c02Member(p, r)
 	c02Allocate(p, r)
@@ -651,5 +654,35 @@ func c02FamilySelect(p *chk.Prog, r *chk.Report) {
 		}
 		lits := g.FindPat("&Allocation{PoolName: P.Name}", chk.H("P", pool))
 		y.Check("getFreeIPsFromPool:pool-name", ff.Pos(), len(lits) == 1, "", "the allocation does not carry the name of the pool searched")
+	}
+}
+
+// c02FamilyChanged: the addresses a Service holds keep matching its cluster-IP families: serviceFamilyChanged accepts a
+// held set exactly when its family equals the cluster-IP family, or - only for PreferDualStack with dual-stack cluster
+// IPs - whatever it is; an undeterminable family is always a change.
+func c02FamilyChanged(p *chk.Prog, r *chk.Report) {
+	x := r.Rule("FAMILY-KEPT", "B path (truth table)", "controller.serviceFamilyChanged(lb, cluster, policy) is false exactly when lb != Unknown and (lb == cluster or (cluster == DualStack and policy == PreferDualStack)); convergeBalancer clears the held addresses when it is true", 2)
+	f := need(x, p, "controller", "", "serviceFamilyChanged")
+	if f == nil {
+		return
+	}
+	g := f.Graph()
+	lb, cl, pol := isParamIdx(f, 0), isParamIdx(f, 1), isParamIdx(f, 2)
+	unknown := g.GPat(true, "L == U", chk.H("L", lb), chk.H("U", isObjNamed(f, "internal/ipfamily.Unknown")))
+	same := g.GPat(true, "L == C", chk.H("L", lb), chk.H("C", cl))
+	dual := g.GPat(true, "C == D", chk.H("C", cl), chk.H("D", isObjNamed(f, "internal/ipfamily.DualStack")))
+	prefer := g.GPat(true, "P == PD", chk.H("P", pol), chk.H("PD", constStr(f, "PreferDualStack")))
+	changed := chk.GOr(unknown, chk.GAnd(chk.GNot(same), chk.GNot(chk.GAnd(dual, prefer))))
+	why := g.BoolResultIs(changed)
+	x.Check("serviceFamilyChanged:truth-table", f.Pos(), why == "", "", "a held address set whose family does not match the Service's cluster IPs can be kept (or a matching one dropped): "+why)
+	cb := need(x, p, "controller", "controller", "convergeBalancer")
+	if cb != nil {
+		cg := cb.Graph()
+		svc, key := isParam(cb, "svc"), isParam(cb, "key")
+		ok := false
+		for _, e := range cg.DirectEdgesImplying(cg.GPat(true, "serviceFamilyChanged(A, B, P)")) {
+			ok = !cg.FeasibleEscape(e, cb.ContainsPat("RECV.clearServiceState(K, S)", chk.H("K", key), chk.H("S", svc)), nil, nil)
+		}
+		x.Check("converge:family-change-clears", cb.Pos(), ok, "", "a family change does not clear the held addresses")
 	}
 }
